@@ -54,6 +54,7 @@ type c09Sched struct {
 	// shadow of the condition variable: who waits (in order), who was notified and has not returned yet
 	waiters map[string]bool
 	transit []time.Time // notifications sent under L whose receiver has not returned from Wait yet
+	foreign  map[interface{}]int
 	bcasting int   // unlocked broadcasts between their pre hook and their record
 	nRecords int64 // every handled hook event / note
 	created  int   // workers created so far (from su records), exited = ex records
@@ -63,7 +64,7 @@ type c09Sched struct {
 
 func newC09Sched() *c09Sched {
 	return &c09Sched{recording: true, labels: map[int64]string{}, last: map[string]string{},
-		prio: map[string]int{}, holdAt: map[int]bool{}, lastWS: map[string][3]int{}, waiters: map[string]bool{}, lastNano: time.Now().UnixNano()}
+		prio: map[string]int{}, holdAt: map[int]bool{}, lastWS: map[string][3]int{}, waiters: map[string]bool{}, foreign: map[interface{}]int{}, lastNano: time.Now().UnixNano()}
 }
 
 func c09Goid() int64 {
@@ -95,7 +96,9 @@ func c09Num(v interface{}) string {
 	return strconv.FormatInt(n, 10)
 }
 
-func c09TaskName(v interface{}) string {
+// taskName encodes a task argument: n = nil, i = the pool's idle task, t<id> = a task of the case
+// (own tasks carry their id; foreign ones — engine tasks — are numbered by identity from 1000).
+func (s *c09Sched) taskName(v interface{}) string {
 	if v == nil {
 		return "n"
 	}
@@ -105,7 +108,15 @@ func c09TaskName(v interface{}) string {
 		}
 		return "t" + strconv.Itoa(t.id)
 	}
-	return "i"
+	if strings.HasSuffix(fmt.Sprintf("%T", v), "idleTask") {
+		return "i"
+	}
+	id, ok := s.foreign[v]
+	if !ok {
+		id = 1000 + len(s.foreign)
+		s.foreign[v] = id
+	}
+	return "t" + strconv.Itoa(id)
 }
 
 // c09Points: point -> (code, park point?, argument kinds: w = worker id (label only), n = number, t = task, s = string)
@@ -118,7 +129,7 @@ var c09Points = map[string]struct {
 	"pool.add.signal": {"as", false, "t"}, "pool.add.done": {"ad", true, "t"},
 	"pool.get.kill": {"kx", false, "n"}, "pool.get.killexit": {"ke", true, ""},
 	"pool.get.nokill": {"nk", false, "n"}, "pool.get.popped": {"pp", false, "tn"},
-	"pool.get.empty":  {"em", true, ""},
+	"pool.get.empty":  {"em", true, ""}, "pool.get.drain": {"dr", false, "n"},
 	"pool.worker.start": {"st", true, "w"}, "pool.worker.head": {"hd", true, "w"},
 	"pool.worker.idle.reg": {"ir", false, "w"}, "pool.worker.idle.unreg": {"iu", false, "w"},
 	"pool.worker.task.begin": {"tb", true, "wt"}, "pool.worker.task.end": {"te", true, "wt"},
@@ -247,7 +258,7 @@ func (s *c09Sched) handle(point string, args ...interface{}) {
 		case 'n':
 			text += "." + c09Num(args[k])
 		case 't':
-			text += "." + c09TaskName(args[k])
+			text += "." + s.taskName(args[k])
 		case 's':
 			text += "." + fmt.Sprint(args[k])[:1]
 		}
@@ -286,6 +297,8 @@ func (s *c09Sched) handle(point string, args ...interface{}) {
 		for len(s.transit) < len(s.waiters) {
 			s.transit = append(s.transit, time.Now())
 		}
+	case "js":
+		s.lastWS[thread] = [3]int{args[0].(int), 0, args[1].(int)}
 	case "ws":
 		s.lastWS[thread] = [3]int{args[0].(int), args[1].(int), args[2].(int)}
 	}
